@@ -197,7 +197,7 @@ def playback(ws, package, name, timeout_s):
     return res
 
 
-def evaluate(group_names, prop, tier, res, timeout_s=None, only_quick=None):
+def evaluate(group_names, prop, tier, res, timeout_s=None, only_quick=None, skip=None):
     groups_all = load_groups()
     groups = [groups_all[g] for g in group_names]
     timeout_s = timeout_s or (2400 if tier == 'thorough' else 900)
@@ -211,10 +211,12 @@ def evaluate(group_names, prop, tier, res, timeout_s=None, only_quick=None):
               if prop in h.props and (tier == 'thorough' or h.tier == 'quick')]
         if only_quick is not None and tier != 'thorough':
             hs = [h for h in hs if any(h.name == o or (o.endswith('*') and h.name.startswith(o[:-1])) for o in only_quick)]
+        if skip:
+            hs = [h for h in hs if not any(h.name == o or (o.endswith('*') and h.name.startswith(o[:-1])) or (o.startswith('*') and o.endswith('*') and o[1:-1] in h.name) for o in skip)]
         if not hs:
             continue
-        # the thorough tier contains harnesses of 5-8 GB each: fewer of them side by side (62 GB machine)
-        results, cerr, wall, cmd = run_harnesses(ws, pkg, [h.name for h in hs], timeout_s, jobs=(min(JOBS, 8) if tier == 'thorough' else JOBS), modpath={h.name: h.group.modpath for h in hs})
+        # the thorough tier contains harnesses of 5-17 GB each: fewer of them side by side (62 GB machine)
+        results, cerr, wall, cmd = run_harnesses(ws, pkg, [h.name for h in hs], timeout_s, jobs=(min(JOBS, 6) if tier == 'thorough' else JOBS), modpath={h.name: h.group.modpath for h in hs})
         res.checker_cmds.append(re.sub(r'(--harness \S+ ?)+', '--harness <%d harnesses> ' % len(hs), cmd))
         if cerr:
             res.undecide('kani: the harness modules no longer compile against the current tree (%s):\n%s' % (pkg, cerr[:1500]))
